@@ -309,6 +309,16 @@ func checkProxy(c proxyCase) *vt.Fail {
 			return f
 		}
 	}
+	// responses must be stable: ask for everything a second time, after every other first request has been served
+	for i, rq := range reqs {
+		r, err := get(cl, rq.url)
+		if err != nil {
+			continue
+		}
+		if r.Status != seqResp[i].Status || !bytes.Equal(r.Body, seqResp[i].Body) {
+			return vt.Failf("response-changed-on-repeat", "GET %s answered %d (%d bytes) the first time and %d (%d bytes) after other modules had been requested", strings.TrimPrefix(rq.url, srv.URL), seqResp[i].Status, len(seqResp[i].Body), r.Status, len(r.Body))
+		}
+	}
 	// ---- concurrent phase against a fresh server: first requests race to fill the caches ----
 	srv2, err := startServer(dir)
 	if err != nil {
